@@ -97,6 +97,15 @@ public:
             locker.relock();
         }
 
+        if (!m_thread || m_stopping)
+            return; // another caller stopped (or is stopping) the thread meanwhile
+
+        // The logger thread may itself be logging (a Qt warning, a sink that logs) and must not
+        // block on this mutex while we wait for it to finish: from here on process() only queues
+        // the messages, and the mutex is released until the thread is gone
+        m_stopping = true;
+        locker.unlock();
+
         QTLOGGER_VERIF_POINT("oth.reset.before_quit");
         m_thread->quit();
 
@@ -106,12 +115,16 @@ public:
         }
         QTLOGGER_VERIF_POINT("oth.reset.after_wait");
 
+        locker.relock();
+
         QTLOGGER_VERIF_POINT("oth.reset.before_clear");
         m_thread.clear();
         m_worker = nullptr;
+        m_stopping = false;
 
         // Messages the logger thread did not get to (its events are discarded once the
-        // application object is gone) are delivered here, in order, before any later message
+        // application object is gone; messages logged while it was stopping are only queued)
+        // are delivered here, in order, before any later message
         while (processQueued()) { }
     }
 
@@ -128,7 +141,9 @@ public:
             }
             m_pendingCount.fetchAndAddOrdered(1);
             QTLOGGER_VERIF_POINT("oth.process.counted");
-            QCoreApplication::postEvent(m_worker, new LogEvent());
+            if (!m_stopping) {
+                QCoreApplication::postEvent(m_worker, new LogEvent());
+            }
             QTLOGGER_VERIF_POINT("oth.process.posted");
         } else {
             BaseHandler::process(lmsg);
@@ -188,6 +203,7 @@ private:
     QPointer<QThread> m_thread;
     Worker *m_worker = nullptr;
     QMutex m_mutex;
+    bool m_stopping = false; // resetOwnThread() is waiting for the thread to finish
     QAtomicInt m_pendingCount;
     QQueue<QSharedPointer<LogMessage>> m_queue;
     QMutex m_queueMutex;
